@@ -969,7 +969,7 @@ def run(chk):
         "specials are escaped (O3) and nothing else is (O4); escape and quote characters match (O5); no printed line starts "
         "with a line-start special (O6); every raw emission of a non-constant string is dominated by a negative quoting "
         "decision on that string (O7); escaping happens only inside quotes (O8); printed keywords and the device arity "
-        "match the parser's table (O9). A2-token: whatever is written directly in front of an opening quote and directly behind a closing quote is a separator, a line break or the edge of the output (neighbours looked up through calls and returns).")
+        "match the parser's table (O9). A2-token: whatever is written directly in front of an opening quote and directly behind a closing quote is a separator, a line break or the edge of the output (neighbours looked up through calls and returns). K12-twins: a function that handles basic/extended inode type pairs as pairs handles none of them half; K10-chunkcut: the line reader's result does not depend on where its source cuts the chunks.")
     chk.assumptions = ["names containing a newline are excluded by the property", "istream_get_line yields the line without its terminator"]
     pg = load_program("gensquashfs")
     pr = load_program("rdsquashfs")
